@@ -249,6 +249,18 @@ func C11(c *hx.Ctx) {
 			}
 		}
 	}
+	// every boundary of the header's dictionary-size field (the reader sizes its window from it):
+	// 0, 1, just below/at/above the longest match (273), around the minimum of 4096, 2^32-1
+	for _, b := range baseAlone(c.Seed) {
+		if len(b.Data) < 13 {
+			continue
+		}
+		for _, ds := range []uint32{0, 1, 2, 100, 271, 272, 273, 274, 4095, 4096, 4097, 1<<16 - 1, 1 << 16, 1<<26 - 1, 1 << 26} {
+			d := append([]byte{}, b.Data...)
+			d[1], d[2], d[3], d[4] = byte(ds), byte(ds>>8), byte(ds>>16), byte(ds>>24)
+			add("alone", d, "dictsize-field")
+		}
+	}
 	for code := 0; code < 256; code++ { // every properties byte, valid or not
 		st, _, _ := ref.EncodeAlone(ref.Props{LC: 3, LP: 0, PB: 2}, 4096, []ref.Op{{K: ref.OpLit, B: 65}, {K: ref.OpMatch, Dist: 1, Len: 9}}, "marker", false)
 		st[0] = byte(code)
